@@ -119,6 +119,12 @@ func (m *machine) activeReqs() []int {
 }
 
 func (m *machine) Next(t *rapid.T) Op {
+	op := m.next(t)
+	op.Upper = rapid.IntRange(0, 1<<20).Draw(t, "upper")%8 == 7
+	return op
+}
+
+func (m *machine) next(t *rapid.T) Op {
 	c08 := m.c08()
 	defs := m.definedSvcs()
 	// bootstrap: a service and a couple of bindings first
